@@ -24,10 +24,19 @@ def _apply(chunk):
         cov.start()
     out = []
     try:
+        vs = []
         for line in chunk:
             v = json.loads(line)
             v["res"] = calls.apply(PM, v)
-            out.append(json.dumps(v, separators=(",", ":")))
+            vs.append(v)
+        # purity: the properties quantify over inputs, so a result may depend on the call's own arguments only.  Every 17th
+        # call of the chunk is made again, in reverse order, after everything else this process has done in between; a
+        # different answer the second time is recorded as a failed call (no validator accepts it).
+        for v in reversed(vs[::17]):
+            w = {k: x for k, x in v.items() if k != "res"}
+            if calls.apply(PM, w) != v["res"]:
+                v["res"] = {"t": "x", "v": [ord(c) for c in "ResultDependsOnCallHistory"]}
+        out = [json.dumps(v, separators=(",", ":")) for v in vs]
     finally:
         if cov is not None:
             cov.stop()
